@@ -505,8 +505,31 @@ def bounded_runs(ctx):
     ctx.add(r)
 
 
+def fit_precondition_cover(ctx):
+    """The proofs of C14/C19 *assume* fit_mvstud's non-degeneracy precondition at the from_particles call site (listed in the trusted
+    base): nothing on the path establishes it.  This is the obligation a caller is checked against; it is not provable, so the real code
+    is asked directly (bounded, replayers/c18_sparse.py): sparse-support runs whose resampled per-cluster training set degenerates."""
+    from pyvc import replay as _rp
+    import time
+    t0 = time.time()
+    oid = "C18/modes.ModeStatistics.from_particles/call:fit_mvstud:non-degenerate-subset"
+    res = _rp.run_replayer("c18_sparse", {"obligation": oid, "input": None}, timeout=600)
+    if res.get("reproduced"):
+        r = ObResult(oid, "violated", "native", time.time() - t0, int(res.get("tried") or 1), str(res.get("detail"))[:700], kind="bounded",
+                     witness={"replayer": "c18_sparse", "input": res.get("input")})
+        r.replayed = res
+    elif "ran to completion" in str(res.get("detail")):
+        r = ObResult(oid, "discharged", "native", time.time() - t0, int(res.get("tried") or 1), str(res.get("detail"))[:300], kind="bounded")
+    else:
+        r = ObResult(oid, "unknown", "native", time.time() - t0, 1, "replayer gave no verdict: " + str(res)[:300], kind="bounded")
+    ctx.add(r)
+    ctx.bounded.append({"clause": "the precondition of fit_mvstud (non-degenerate subset) at the from_particles call site, assumed by the C14/C19 proofs: asked of the real code",
+                        "bound": "4 fixed sparse-support configurations (support fraction 0.05, ess_ratio 1, 200 particles; replayers/c18_sparse.py)", "cases": int(res.get("tried") or 0)})
+
+
 def run(ctx):
     ctx.parallel(well_typed_product(ctx) + ill_typed(ctx))
+    fit_precondition_cover(ctx)
     no_likelihood_call_at_construction(ctx)
     wiring_sym(ctx)        # (the earlier textual comparison of constructor keywords, `wiring`, is superseded: it flagged equivalent refactorings)
     forwarding(ctx)
